@@ -133,6 +133,17 @@ class Asn1Type(Asn1Item):
                  (not matchConstraints or self.subtypeSpec.isSuperTypeOf(other.subtypeSpec)))
 
     @staticmethod
+    def _addInitializer(arg, current, option):
+        # Constraints given to `subtype()` further narrow the type: anything
+        # but a set of intersected constraints is intersected with them,
+        # not extended by them.
+        if (arg in ('subtypeSpec', 'sizeSpec') and
+                not isinstance(current, constraint.ConstraintsIntersection)):
+            current = constraint.ConstraintsIntersection(current)
+
+        return current + option
+
+    @staticmethod
     def isNoValue(*values):
         for value in values:
             if value is not noValue:
@@ -438,7 +449,7 @@ class SimpleAsn1Type(Asn1Type):
             initializers['tagSet'] = self.tagSet.tagExplicitly(explicitTag)
 
         for arg, option in kwargs.items():
-            initializers[arg] += option
+            initializers[arg] = self._addInitializer(arg, initializers[arg], option)
 
         return self.__class__(value, **initializers)
 
@@ -667,7 +678,7 @@ class ConstructedAsn1Type(Asn1Type):
             initializers['tagSet'] = self.tagSet.tagExplicitly(explicitTag)
 
         for arg, option in kwargs.items():
-            initializers[arg] += option
+            initializers[arg] = self._addInitializer(arg, initializers[arg], option)
 
         clone = self.__class__(**initializers)
 
